@@ -1,6 +1,8 @@
 """C08 - conflict priorities are respected."""
 
-from tv.designs import gen_spec
+from hypothesis import strategies as st
+
+from tv.designs import gen_conflict_graph_spec, gen_spec
 from tv.props._core_a import run_design, tier_opts
 
 ID = "C08"
@@ -18,11 +20,14 @@ TECHNIQUE = "grammar-based design generation + exhaustive input valuations again
 
 
 def budget(tier):
-    return dict(examples=25, seconds=45) if tier == "quick" else dict(examples=300, seconds=420)
+    return dict(examples=70, seconds=45) if tier == "quick" else dict(examples=300, seconds=420)
 
 
 def strategy(tier):
-    return gen_spec(**{**tier_opts(tier), **dict(allow_rels=True, min_rels=1, sched="eager", max_trans=4, allow_same_trans_conf=False)})
+    general = gen_spec(**{**tier_opts(tier), **dict(allow_rels=True, min_rels=1, sched="eager", max_trans=4, allow_same_trans_conf=False)})
+    # one case in four is a relation-heavy design (many small transactions, hub / chain conflict topologies)
+    graph = gen_conflict_graph_spec(sched="eager")
+    return st.integers(0, 3).flatmap(lambda k: graph if k == 3 else general)
 
 
 def run_case(case):
